@@ -39,6 +39,7 @@ import MosaikProofs.Sched.Shield
 import MosaikProofs.Sched.Taint
 import MosaikProofs.Properties.C01
 import MosaikProofs.Closure.AncTable
+import MosaikProofs.Build.RunConfig
 namespace Mosaik.C07
 open Mosaik
 
@@ -323,5 +324,21 @@ example : let sims : List SimCfg :=
     shapedTB sims = true ∧ constCutoffTB sims = true ∧
     (cacheTriggeringAncestors sims []).toOption.map (fun out => lookupTI (out.getD 3 {}).trigAnc 0) = some (some ⟨1, 1, [1]⟩) := by
   decide
+
+/-- **the table is the minimum for every built scenario**: `ShapedT` and `TrigRange` follow from how `connect` builds the
+tables (`Build.BuiltOk`); only `UniformT` (the complement of finding D7) remains a hypothesis -/
+theorem ancestor_table_is_minimum_built (ops : List Build.Op) (hv : Build.Valid {} ops) (orc : List Nat)
+    (hU : UniformT (Build.build ops).sims) {out : List SimCfg} (h : cacheTriggeringAncestors (Build.build ops).sims orc = .ok out) :
+    (∀ t, t < (Build.build ops).sims.length → ∀ s d, lookupTI (out.getD t {}).trigAnc s = some d → TrigPath (Build.build ops).sims s t d) ∧
+    (∀ s t d, TrigPath (Build.build ops).sims s t d → ∃ e, lookupTI (out.getD t {}).trigAnc s = some e ∧ TI.le e d) :=
+  anc_table_minimum _ orc (Build.built_shapedT (Build.build_builtOk ops {} Build.builtOk_empty hv))
+    (Build.built_trigRange (Build.build_builtOk ops {} Build.builtOk_empty hv)) hU h
+
+/-- **`World.run` hands the scheduler a configuration that satisfies `WFCfg`** - all nine hypotheses of the scheduler theorems
+(C01, C02, C05, C07, C09, C10, C16, C17), for every scenario built by valid calls whose trigger paths are uniform -/
+theorem run_configuration_wf (ops : List Build.Op) (hv : Build.Valid {} ops) (orc : List Nat)
+    (hU : UniformT (Build.build ops).sims) {out : List SimCfg} (h : cacheTriggeringAncestors (Build.build ops).sims orc = .ok out)
+    (until_ maxLoop : Nat) (lazy_ useCache strict : Bool) : WFCfg (Build.runCfg out until_ maxLoop lazy_ useCache strict) :=
+  Build.run_config_wf hv hU h until_ maxLoop lazy_ useCache strict
 
 end Mosaik.C07
